@@ -15,7 +15,7 @@ ActiveSim(c, tb, s) == CHOOSE f \in Cand(c, tb, s) : \A g \in Cand(c, tb, s) : g
 RowsAt(c, tb, f) == SelectSeq(tb, LAMBDA r : Sim(c, r.t) = f)
 DeclAt(c, tb, step) ==
    LET s == step * c.dt IN
-   IF tb = <<>> \/ step < 0 \/ step >= Nsteps(c) THEN <<>>                      \* window [start, stop)
+   IF tb = <<>> \/ step < 0 \/ s >= Dur(c) THEN <<>>                            \* window [start, stop)
    ELSE IF ~c.cont THEN RowsAt(c, tb, s)
    ELSE IF OnTick(c, tb, s) /\ s < Dur(c) /\ Cand(c, tb, s) # {} THEN RowsAt(c, tb, ActiveSim(c, tb, s)) ELSE <<>>
 RECURSIVE Expand(_)
